@@ -160,6 +160,10 @@ class EVAlg:
     def _separated(self, a, b):
         if a.exact and b.exact:
             return True
+        if a.e == 0.0 and b.e == 0.0:
+            # two quantities known without any error (leaves: constants, parameters, data entries): their
+            # comparison is as exact as a comparison of integers, however close they are
+            return True
         return abs(a.v - b.v) > 4 * (a.e + b.e) + 1e-9 * (abs(a.v) + abs(b.v)) + 1e-300
 
     def truth(self, a):
